@@ -3,7 +3,7 @@ import core
 from core import hx, gen_mag
 
 ID = "C13"
-READY = False
+READY = True
 ORACLE = "c13"
 HARNESS_BIN = "c13"
 NCASES = {"quick": 9000, "thorough": 200000}
@@ -25,9 +25,13 @@ RULE = ("cases = operation (every call form: by value / by reference / assigning
         "{0, +-1, m-1, m, m+1, multiples of m, a + b = m, a = b, 0..2n+2 words in the usual bit patterns} x exponents "
         "{0, 1, 2, 3, one word, 2^64-1, 2^64, two words, 3..5 words; all-ones / single bit / sparse / random}. "
         "A case is non-trivial when the oracle evaluated the Coq specification on it; distinct = distinct case texts.")
-EXPLANATION = ("Theorems (coq/props/C13.v): for every modulus m >= 1 the as-is model of reduce/+/-/*/neg/dbl/sqr/pow/inv/div returns the "
-               "residue the mathematics demands, residues lie in [0, m), inverses exist exactly for units, different rings panic, no "
-               "debug assertion of dashu or num-modular can fire; windowed exponentiation is proved for any monoid-like carrier. "
+EXPLANATION = ("Theorems (coq/props/C13.v, 33 pinned): for every word size >= 2 and every modulus m >= 1 the as-is model of "
+               "ConstDivisor::new/reduce/residue, + - * neg dbl sqr ==, pow, inv, div and of the Reducer impl returns the residue the "
+               "mathematics demands (representation invariant raw = (x mod m) << shift preserved by every operation, residues in [0, m), "
+               "inverse exactly for units, division = div_spec, different rings panic, no debug assertion of dashu or num-modular "
+               "precondition can fire) given the value-level contracts of the external kernels (externals_ok); binary and sliding-window "
+               "exponentiation are proved for any carrier closed under a power relation; the extracted 64-bit model the oracle runs is "
+               "proved equal to the specification for all inputs (C13_run_*); the pre-repair models of F01-F03 stay refuted. "
                "Tie to the code: every operation of the harness is compared with the extracted specification (verdict) and with "
                "the extracted as-is model (fidelity statistic) on generated inputs.")
 TRUSTED_BASE = [
